@@ -1707,13 +1707,50 @@ impl Expr {
                 else_expr,
                 ..
             } => {
-                if let Some((_, then_expr)) = when_then.first() {
-                    then_expr.data_type(schema)
-                } else if let Some(else_expr) = else_expr {
-                    else_expr.data_type(schema)
-                } else {
-                    Ok(ArrowDataType::Null)
+                // The result type covers EVERY branch, as evaluation does: a
+                // NULL branch says nothing, and integer and floating-point
+                // branches meet in Float64 (`CASE WHEN c THEN 1 ELSE 0.5 END`
+                // reported Int64 while returning Float64 batches).
+                let mut result: Option<ArrowDataType> = None;
+                let branches = when_then
+                    .iter()
+                    .map(|(_, t)| t)
+                    .chain(else_expr.iter().map(|e| e.as_ref()));
+                for b in branches {
+                    let t = b.data_type(schema)?;
+                    if matches!(t, ArrowDataType::Null) {
+                        continue;
+                    }
+                    result = Some(match result {
+                        None => t,
+                        Some(cur) if cur == t => cur,
+                        Some(cur) => {
+                            let is_int = |x: &ArrowDataType| {
+                                matches!(
+                                    x,
+                                    ArrowDataType::Int8
+                                        | ArrowDataType::Int16
+                                        | ArrowDataType::Int32
+                                        | ArrowDataType::Int64
+                                )
+                            };
+                            let is_float = |x: &ArrowDataType| {
+                                matches!(x, ArrowDataType::Float32 | ArrowDataType::Float64)
+                            };
+                            if (is_int(&cur) && is_float(&t))
+                                || (is_float(&cur) && is_int(&t))
+                                || (is_float(&cur) && is_float(&t))
+                            {
+                                ArrowDataType::Float64
+                            } else if is_int(&cur) && is_int(&t) {
+                                ArrowDataType::Int64
+                            } else {
+                                cur
+                            }
+                        }
+                    });
                 }
+                Ok(result.unwrap_or(ArrowDataType::Null))
             }
             Expr::InList { .. }
             | Expr::Between { .. }
